@@ -71,6 +71,35 @@ def chain(*fs):
     return f
 
 
+
+def replace_function(fn, func_name, new_text, extra_import=None):
+    """replace the whole text of one method by new_text"""
+    def f(src):
+        s = src[fn]
+        tree = ast.parse(s)
+        target = None
+        for n in ast.walk(tree):
+            if isinstance(n, ast.FunctionDef) and n.name == func_name:
+                target = n
+                break
+        if target is None:
+            return None
+        lines = s.splitlines(keepends=True)
+        a, b = target.lineno - 1, target.end_lineno
+        if target.decorator_list:
+            a = min(d.lineno for d in target.decorator_list) - 1
+        out = dict(src)
+        txt = "".join(lines[:a]) + new_text + "".join(lines[b:])
+        if extra_import and extra_import not in txt:
+            txt = txt.replace("from contextlib import closing", extra_import, 1)
+        out[fn] = txt
+        return out
+    return f
+
+
+CM_OK = '    def _delete_object_only(self, cid: str) -> None:\n        """Attempt to delete an object based on the given content identifier (cid)."""\n        cid_refs_abs_path = self._get_hashstore_cid_refs_path(cid)\n        with self._cid_claimed(cid):\n            if os.path.isfile(cid_refs_abs_path):\n                self.fhs_logger.debug("Cid reference file exists, skipping delete request.")\n            else:\n                self._delete("objects", cid)\n                self.fhs_logger.info("Deleted object only")\n\n    @contextmanager\n    def _cid_claimed(self, cid: str):\n        """Hold the claim on a cid for the duration of a with block."""\n        self._synchronize_object_locked_cids(cid)\n        try:\n            yield\n        finally:\n            self._release_object_locked_cids(cid)\n\n'
+CM_BAD = '    def _delete_object_only(self, cid: str) -> None:\n        """Attempt to delete an object based on the given content identifier (cid)."""\n        cid_refs_abs_path = self._get_hashstore_cid_refs_path(cid)\n        with self._cid_claimed(cid):\n            if os.path.isfile(cid_refs_abs_path):\n                self.fhs_logger.debug("Cid reference file exists, skipping delete request.")\n            else:\n                self._delete("objects", cid)\n                self.fhs_logger.info("Deleted object only")\n\n    @contextmanager\n    def _cid_claimed(self, cid: str):\n        """Hold the claim on a cid for the duration of a with block."""\n        self._synchronize_object_locked_cids(cid)\n        yield\n        self._release_object_locked_cids(cid)\n\n'
+
 # (property, expected rule or None for a twin, name, edit)
 VARIANTS = [
     # ---- C01
@@ -360,6 +389,18 @@ VARIANTS = [
            rep_in(FHS, "_store_hashstore_refs_files", "                if os.path.isfile(pid_refs_path) and os.path.isfile(cid_refs_path):", "                if pid_bound and os.path.isfile(cid_refs_path):"),
            rep_in(FHS, "_store_hashstore_refs_files", "                elif os.path.isfile(pid_refs_path) and not os.path.isfile(\n                    cid_refs_path\n                ):", "                elif pid_bound and not os.path.isfile(cid_refs_path):"),
            rep_in(FHS, "_store_hashstore_refs_files", "                elif not os.path.isfile(pid_refs_path) and os.path.isfile(\n                    cid_refs_path\n                ):", "                elif not pid_bound and os.path.isfile(cid_refs_path):"))),
+    ("C08", None, "twin: cid claim of _delete_object_only held through an @contextmanager helper",
+     replace_function(FHS, "_delete_object_only", CM_OK, "from contextlib import closing, contextmanager")),
+    ("C07", None, "twin: cid claim of _delete_object_only held through an @contextmanager helper",
+     replace_function(FHS, "_delete_object_only", CM_OK, "from contextlib import closing, contextmanager")),
+    ("C04", None, "twin: cid claim of _delete_object_only held through an @contextmanager helper",
+     replace_function(FHS, "_delete_object_only", CM_OK, "from contextlib import closing, contextmanager")),
+    ("C08", "C08.b", "@contextmanager claim helper without try/finally (claim leaks when the body raises)",
+     replace_function(FHS, "_delete_object_only", CM_BAD, "from contextlib import closing, contextmanager")),
+    ("C07", "C07.g", "per-call value parked in the shared store object",
+     rep_in(FHS, "_move_and_get_checksums", "        object_cid = hex_digests.get(self.algorithm)\n", "        object_cid = hex_digests.get(self.algorithm)\n        self.last_cid = object_cid\n")),
+    ("C13", "C13.h", "return inside finally swallows the error",
+     rep_in(FHS, "_delete_object_only", "        finally:\n            self._release_object_locked_cids(cid)\n", "        finally:\n            self._release_object_locked_cids(cid)\n            return\n")),
 ]
 
 
